@@ -194,7 +194,7 @@ func lockProtocol(c *Ctx) (bad []lockFinding, good []lockFinding, nMutex int) {
 //     function performs no further write to that object (directly or by callee).
 func cacheProtocol(c *Ctx, fn *ssa.Function, g *ssa.Global, gn string, addBad, addOK func(kind, construct string, pos token.Pos, msg string)) {
 	isLoadOfG := func(v ssa.Value) bool {
-		u, ok := v.(*ssa.UnOp)
+		u, ok := throughCell(v).(*ssa.UnOp)
 		return ok && u.Op == token.MUL && u.X == ssa.Value(g)
 	}
 	// key fields: Store(FieldAddr(alloc, f), param) in fn or in an unexported helper it calls
@@ -486,7 +486,7 @@ func cacheProtocol(c *Ctx, fn *ssa.Function, g *ssa.Global, gn string, addBad, a
 			reuse++
 			if p := keyParamAt(fr.f, from); p != nil && requested(fr, p) {
 				reuseOK++
-			} else if pathwise(fr, v.(*ssa.UnOp)) {
+			} else if pathwise(fr, throughCell(v).(*ssa.UnOp)) {
 				reuseOK++
 			} else {
 				addBad("stale-reuse", fmt.Sprintf("reuse of %s in %s", gn, fname(fn)), retPos,
@@ -516,7 +516,7 @@ func cacheProtocol(c *Ctx, fn *ssa.Function, g *ssa.Global, gn string, addBad, a
 			if !ok || st.Addr != ssa.Value(g) {
 				continue
 			}
-			obj := st.Val
+			obj := throughCell(st.Val)
 			construct := fmt.Sprintf("publication into %s in %s", gn, fname(fn))
 			if _, ok := obj.(*ssa.Alloc); !ok && !returnsFresh(obj, 0) {
 				if cst, ok := obj.(*ssa.Const); ok && cst.Value == nil {
@@ -537,7 +537,7 @@ func cacheProtocol(c *Ctx, fn *ssa.Function, g *ssa.Global, gn string, addBad, a
 					case *ssa.Call:
 						callee := y.Common().StaticCallee()
 						for ai, arg := range y.Common().Args {
-							if arg != obj {
+							if arg != obj && throughCell(arg) != obj {
 								continue
 							}
 							if callee == nil || callee.Blocks == nil {
@@ -581,6 +581,15 @@ func rootAlloc(addr ssa.Value) ssa.Value {
 				if v := soleStoredValue(cell); v != nil {
 					if _, isParam := v.(*ssa.Parameter); isParam {
 						return v
+					}
+				}
+				// a variable that lives in a cell (a named result with a deferred call around): what it certainly
+				// holds where it is read
+				if !isAggregate(cell) {
+					if st := cellStoreBefore(cell, x); st != nil {
+						if al, isAlloc := st.Val.(*ssa.Alloc); isAlloc {
+							return al
+						}
 					}
 				}
 			}
@@ -647,6 +656,27 @@ func returnsFresh(v ssa.Value, depth int) bool {
 
 // unspill: in a function with a deferred call the results are spilled to a local slot and re-loaded
 // after rundefers; the returned value is then the last value stored to that slot in the returning block.
+// throughCell: what a variable that lives in a cell (a named result with a deferred call around) certainly
+// holds where it is read; v itself when that cannot be told.
+func throughCell(v ssa.Value) ssa.Value {
+	for depth := 0; depth < 4; depth++ {
+		ld, ok := v.(*ssa.UnOp)
+		if !ok || ld.Op != token.MUL {
+			return v
+		}
+		cell, ok := ld.X.(*ssa.Alloc)
+		if !ok || isAggregate(cell) {
+			return v
+		}
+		st := cellStoreBefore(cell, ld)
+		if st == nil {
+			return v
+		}
+		v = st.Val
+	}
+	return v
+}
+
 func unspill(ret *ssa.Return, v ssa.Value) ssa.Value {
 	ld, ok := v.(*ssa.UnOp)
 	if !ok || ld.Op != token.MUL {
